@@ -84,6 +84,22 @@ def atoms_of_cond(f, R, i, truth, out):
             return
     except ImportError:
         pass
+    # count helper compared with zero:  H(v) > 0  (H returns 0 for an empty v)  =>  v is not empty
+    if k == 'BinaryOperator' and n['op'] in ('>', '!=', '>=') and truth:
+        try:
+            import validators as _V2
+            from paths import local_init as _li
+            rn = f.nodes[f.strip(n['ch'][1], 'all')]
+            ln = f.nodes[f.strip(n['ch'][0], 'all')]
+            hops = 0
+            while ln['k'] == 'DeclRefExpr' and ln['decl'].get('dk') == 'local' and hops < 2 and _li(f, ln['decl']['id']) is not None:
+                ln = f.nodes[f.strip(_li(f, ln['decl']['id']), 'all')]
+                hops += 1
+            ok0 = (str(rn.get('cv')) == '0' and n['op'] in ('>', '!=')) or (n['op'] == '>=' and str(rn.get('cv')) not in ('None', '0') and str(rn.get('cv')).isdigit())
+            if ok0 and ln['k'] == 'CallExpr' and ln.get('callee', {}).get('inrepo') and _V2.count_helper(f.prog, ln['callee']['usr']) is not None:
+                out.append((uncast(R.render(f.call_args(ln)[0])) + '.size', '!=', '0', n['id']))
+        except (ImportError, IndexError):
+            pass
     if k == 'BinaryOperator' and n['op'] in ('<', '<=', '>', '>=', '==', '!='):
         op = n['op']
         if not truth:
@@ -853,6 +869,29 @@ def overrun_evidence(prog, s, ctx):
                 return 'the container was padded up to %s but the index runs below %s: when that exceeds %s the subscript passes the end' % (pads[0], r, pads[0])
     if 'cv' in In:
         if not any(size in (l, r) for l, op, r, _ in facts):
+            # a test that mentions the container in another form (a count computed from it by a helper) is a guard the rule cannot
+            # read, here or at the call sites of this function: not evidence of an overrun
+            def as_argument(text):
+                # the container handed whole to something (a helper that computes a count from it), not one of its elements / members
+                return re.search(re.escape(C) + r'(?=[,)]|$)', text) is not None and '(' in text
+            if any((as_argument(l) or as_argument(r)) for l, op, r, _ in facts):
+                return None
+            for g_, cn_ in prog.callers_of(f.usr):
+                if g_.usr == f.usr:
+                    continue
+                Rg_ = ctx.setdefault(('R', g_.usr), Renderer(g_))
+                actual = C
+                m_ = re.match(r'^arg(\d+)(.*)$', C)
+                if m_ and int(m_.group(1)) < len(g_.call_args(cn_)):
+                    actual = uncast(Rg_.render(g_.call_args(cn_)[int(m_.group(1))])) + m_.group(2)
+                elif C.startswith('this.') and g_.call_obj(cn_) is not None and Rg_.render(g_.call_obj(cn_)) not in ('this', '*(this)'):
+                    actual = uncast(Rg_.render(g_.call_obj(cn_))) + C[4:]
+                cf_ = facts_at(g_, Rg_, cn_['id'])
+                if any(re.search(re.escape(actual) + r'(?=[,)]|$)', t_) is not None and '(' in t_ for l, op, r, _ in cf_ for t_ in (l, r)):
+                    return None
+                # the same criterion as at the site itself: some test of the size of that container precedes the call
+                if any((actual + '.size') in (l, r) for l, op, r, _ in cf_):
+                    return None
             return 'element %s is read with no test of %s (a shorter container reaches it)' % (In['cv'], size)
         return None
     # E4: the index is computed from a value just read from the file and nothing compares it (or the
@@ -943,6 +982,11 @@ def rule(prog, res, scope=None, rule_name='index-site'):
                 per['G4p'] = per.get('G4p', 0) + 1
                 continue
         j = [e for e in inv if e['function'] == f.qname and e['site'] == key]
+        if not j and f.cls:
+            # the same site in a member the listed function was split into (same class, same container, same index)
+            cs_ = {g_.qname for g_, _c in prog.callers_of(f.usr) if g_.usr != f.usr}
+            j = [e for e in inv if e['site'] == key and e['function'].rsplit('::', 1)[0] == f.cls and cs_ == {e['function']} and
+                 f.rec.get('access') in ('private', 'protected')]
         broken = invariant_broken(prog, j[0]) if j else None
         if j and broken:
             res.viol(rule_name, inst, f.loc(s.nid), '%s; the invariant that justifies this site (values held = product of the dimensions) is broken: %s' % (detail, broken), function=f.sig, expr=key)
